@@ -52,6 +52,16 @@ def classOKj (ci : ClassInfo) (m : XmlMeta) : Bool :=
   && decide ((ci.fields.map (·.name)).Nodup)
   && ci.fields.all (fun f => vars.any (fun v => v.name == f.name && v.init == f.init))
 
+/-- every user class of the universe is inside the fragment (the two generic classes
+`AnyElement` / `DerivedElement` are not: their key sets are what `qname` is reserved for);
+`valOKj` checks `classOKj` for the classes an instance actually reaches -/
+def ctxOKj (Γ : Ctx) : Bool :=
+  Γ.classes.all fun ci =>
+    ci.id == anyId || ci.id == derivedId ||
+    (match metaOf Γ ci.id with
+     | .ok m => classOKj ci m
+     | .error _ => false)
+
 /-- whether the factory keeps a `(key, encode(value))` pair -/
 def keptBy (fac : Factory) (x : Val) : Bool :=
   match fac, x with
